@@ -68,14 +68,17 @@ class EquationParser(object):
             # Any usage of 'exogenous' switches over to the Exogenous block
             # I could skip this, but would need to use eval(), which is dangerous with
             # untrusted inputs.
-            if 'exogenous' in equation.lower():
+            # The marker is looked for in the code part of the line; a comment only counts when the line has
+            # no code at all (the model emits the marker as the comment line "# Exogenous Variables").
+            pos = equation.find('#')
+            code_part = equation
+            if pos > -1:
+                code_part = equation[0:pos]
+            if 'exogenous' in code_part.lower() or (len(code_part.strip()) == 0 and 'exogenous' in equation.lower()):
                 mode = 'exogenous'
                 continue
             # Remove comments (like this one!)
-            pos = equation.find('#')
-            if pos > -1:
-                equation = equation[0:pos]
-            equation = equation.strip()
+            equation = code_part.strip()
             if len(equation) == 0:
                 continue
             splitted = equation.split('=')
